@@ -1,10 +1,10 @@
-\* non-vacuity: a flow filter without methods registered for five methods only (code before the fix)
+\* non-vacuity: the URL tree as it was before the fix (a parameter also stands for an empty segment)
 \* must be refuted
 CONSTANTS
   MaxBody = 1
   QuoteAll = TRUE
-  EmptyParam = FALSE
-  AllMethods = FALSE
+  EmptyParam = TRUE
+  AllMethods = TRUE
   KF_TrailingSlash = TRUE
   Source = "all"
   NChunks = 8
